@@ -1590,6 +1590,7 @@ func (c *CAManager) SignCertificate(csr *x509.CertificateRequest, spiffeID conne
 		trustDomain := signingID.Host()
 		if agentID.Host != trustDomain {
 			originalURI := agentID.URI()
+			originalID := *agentID
 
 			agentID.Host = trustDomain
 
@@ -1598,6 +1599,12 @@ func (c *CAManager) SignCertificate(csr *x509.CertificateRequest, spiffeID conne
 			for i, uri := range csr.URIs {
 				if originalURI.String() == uri.String() {
 					uris[i] = agentID.URI()
+				} else if parsed, err := connect.ParseCertURI(uri); err == nil && isSameAgentID(parsed, originalID) {
+					// the same identity spelled differently (e.g. percent-escaped)
+					// must not keep its foreign trust domain either; keep its spelling.
+					fixed := *uri
+					fixed.Host = trustDomain
+					uris[i] = &fixed
 				} else {
 					uris[i] = uri
 				}
@@ -1704,6 +1711,11 @@ func (c *CAManager) SignCertificate(csr *x509.CertificateRequest, spiffeID conne
 	}
 
 	return &reply, nil
+}
+
+func isSameAgentID(id connect.CertURI, want connect.SpiffeIDAgent) bool {
+	agentID, ok := id.(*connect.SpiffeIDAgent)
+	return ok && *agentID == want
 }
 
 func (c *CAManager) checkExpired(pem string) error {
